@@ -83,7 +83,7 @@ def _check_new_style(ctx):
         ctx.func(FMT, q)
         an.run(FMT, q, kinds)
     n, prot = _report(ctx, an, ENTRIES, FMT)
-    ctx.floor("escape/sites(_format)", n, 14, "may-raise sites")
+    ctx.floor("escape/sites(_format)", n, 10, "may-raise sites")
     # every helper the design names must have been reached from the entry points
     for helper in ("flatFormat", "formatWithCall", "_formatSystem", "_formatTraceback", "formatTime", "formatUnformattableEvent"):
         ctx.need(any(k[1] == helper for k in an.returns), f"{helper} reachable from the formatting entry points")
@@ -96,7 +96,7 @@ def _check_legacy(ctx):
         ctx.func(LOG, q)
         an2.run(LOG, q, kinds)
     n2, prot2 = _report(ctx, an2, LEGACY, LOG)
-    ctx.floor("escape/sites(log.py)", n2, 5, "may-raise sites")
+    ctx.floor("escape/sites(log.py)", n2, 3, "may-raise sites")
     return an2.assumed_total
 
 
